@@ -8,11 +8,11 @@ BASE = "cd /repo && /venv/bin/python -m pytest -ra -q -p no:cacheprovider --time
 TECH = {
  'C01': 'boolean-mask truth tables + layout typing over the AST; abstract interpretation of the branch formulas in a truncated Laurent-series domain (regime continuity)', 'C02': 'boolean-mask truth tables + layout typing + inverse-pair table; truncated Laurent-series abstract interpretation of the branch formulas',
  'C03': 'layout typing + sibling isomorphism + table agreement', 'C04': 'variance (vector/covector) typing + sibling agreement of backward bodies; block-structure (zero-row) analysis of the action Jacobians',
- 'C05': 'def-use / table agreement over resolved callees; truncated-series abstract interpretation of the Jacobian coefficients', 'C06': 'alias/effect analysis with interprocedural summaries; path-based patch pairing',
+ 'C05': 'def-use / table agreement over resolved callees; component-to-block agreement of the algebra adjoints with the extracted layout table; truncated-series abstract interpretation of the Jacobian coefficients', 'C06': 'alias/effect analysis with interprocedural summaries; path-based patch pairing',
  'C07': 'provenance and sign-parity dataflow; path ordering', 'C08': 'typestate over enumerated paths of step() (trial loop, handler paths, unordered-quality path of the strategies)',
- 'C09': 'guard-dominance on paths; nominal dimension typing', 'C10': 'error-discipline dataflow (status must reach a raising check)',
- 'C11': 'mask truth tables; keyword-forwarding and raise-path checks; exact polynomial identities of the quaternion candidates modulo the unit-norm relation; evaluation of the branch selectors over a grid of admissible rotation diagonals', 'C12': 'value-kind inference; operand-role tables; exhaustive evaluation of the pass-count expression read from the source over L = 1..4096',
- 'C13': 'provenance dataflow over inlined expressions (helper methods of EKF.forward flattened into the body)', 'C14': 'clock typestate over paths; loop-body dataflow',
+ 'C09': 'guard-dominance on paths; nominal dimension typing; abstract interpretation of Triggs.forward over {scalar, c R, (a I + b P) J} with the three correction identities checked on a grid', 'C10': 'error-discipline dataflow (status must reach a raising check)',
+ 'C11': 'mask truth tables; keyword-forwarding and raise-path checks; exact polynomial identities of the quaternion candidates modulo the unit-norm relation; evaluation of the branch selectors over a grid of admissible rotation diagonals; polynomial evaluation of the Euler quaternion (Hamilton products expanded) against the documented convention; crop typestate of the matrix argument', 'C12': 'value-kind inference; operand-role tables; exhaustive evaluation of the pass-count expression read from the source over L = 1..4096',
+ 'C13': 'provenance dataflow over inlined expressions (helper methods of EKF.forward flattened into the body)', 'C14': 'clock typestate over paths; loop-body dataflow; affine time-index agreement of the per-step tables in the horizon loops',
  'C15': 'who-may-write ownership; role tables of the linearisation', 'C16': 'carried-state write-back completeness; call-graph reachability of C12.KI',
  'C18': 'nominal dimension typing (index-domain agreement)', 'C20': 'typestate/linear-guard normalisation over enumerated paths',
 }
@@ -60,7 +60,7 @@ def main():
             'technique': TECH.get(p, 'static analysis') + '; alias/effect purity summaries, data-taint memo rule (identity-keyed caches, '
                          'outliving stores), freshness of in-place destinations, reviewed-site tables (safeguards, random draws, carried attributes, system calls, '
                          'untyped constructors, mode tests, unread parameters: every site of the pinned tree read and tabled, anything else a finding), call-signature / '
-                         'docstring agreement, batch-axis rules (all AST-based, nothing executed); %d rules' % len(inv[p]),
+                         'docstring agreement, batch-axis rules, staleness rules (snapshots, loop-carried values, first-element extents, sanitised copies), rules of neighbour properties re-issued where they are necessary conditions (all AST-based, nothing executed); %d rules' % len(inv[p]),
         })
     na = [{'property_id': k, 'reason': v} for k, v in NA.items()]
     for p in sorted(PROPS):
